@@ -108,6 +108,12 @@ GateOk == Ready("gate") =>
 BitsName(k, n) == [p \in 1..n |-> IF Bit(k, p, n) = 0 THEN "z0" ELSE "z1"]
 ActionOk == Ready("action") =>
     /\ (item.sys = "q" => {p[1] : p \in out.pairs} = ExactStateNames("q") /\ {p[2] : p \in out.pairs} = ExactStateNames("q"))
+    \* orientation of the rotations (right-handed: x90 takes +z to -y, y90 takes +z to +x, z90 takes +x to +y)
+    /\ (item.sys = "q" /\ item.name[1] = "x90" => <<<<"z0">>, <<"y1">>>> \in out.pairs)
+    /\ (item.sys = "q" /\ item.name[1] = "y90" => <<<<"z0">>, <<"x0">>>> \in out.pairs)
+    /\ (item.sys = "q" /\ item.name[1] \in {"z90", "phase"} => <<<<"x0">>, <<"y0">>>> \in out.pairs)
+    /\ (item.sys = "q" /\ item.name[1] \in {"zm90", "phase_daggered"} => <<<<"x0">>, <<"y1">>>> \in out.pairs)
+    /\ (item.sys = "q" /\ item.name[1] = "hadamard" => <<<<"z0">>, <<"x0">>>> \in out.pairs /\ <<<<"y0">>, <<"y1">>>> \in out.pairs)
     /\ (item.name[1] = "swap" => \A a, b \in Q1Exact : <<<<a, b>>, <<b, a>>>> \in out.pairs)
     /\ (item.name[1] = "cx" => \A k \in 0..3 : <<BitsName(k, 2), BitsName(CxMap(k, Pos(item.ids, 1), Pos(item.ids, 2), 2), 2)>> \in out.pairs)
     /\ (item.name[1] = "cx" /\ item.ids = <<0, 1>> => <<<<"x0", "z0">>, <<"bell_phi_plus">>>> \in out.pairs /\ <<<<"x1", "z1">>, <<"bell_psi_minus">>>> \in out.pairs)
